@@ -99,3 +99,17 @@ Example C03_example_batch_sampler :
          (combine [ex_bell; ex_flip] [[]; [3%Z]]) = [(-3 # 2)%Q; (3 # 2)%Q].
 Proof. exact example_batch_sampler. Qed.
 Print Assumptions C03_example_batch_sampler.
+
+(* Unsimplified operators (e.g. the JSSP encoder's Hamiltonian): repeated Pauli strings add up, in the diagonal value
+   used on the sampler path and in the expectation value of the estimator path. *)
+Theorem C03_repeated_terms_add :
+  (forall a b k, diag_value (a ++ b) k == diag_value a k + diag_value b k)%Q
+  /\ (forall a b s, cexpect (a ++ b) s == cexpect a s + cexpect b s)%Q.
+Proof. exact (conj diag_value_app cexpect_app). Qed.
+Print Assumptions C03_repeated_terms_add.
+
+Example C03_repeated_terms_example :
+  (diag_value [(1, [(0, PZ)]); (1 # 2, [(0, PZ)]); (2, []); (1, []); (3 # 2, [(1, PZ)]); (-3 # 2, [(1, PZ)])] [true; true] == 3 # 2)%Q
+  /\ (cexpect [(1, [(0, PZ)]); (1 # 2, [(0, PZ)]); (2, []); (1, [])] [1%N] == 3 # 2)%Q.
+Proof. exact repeated_terms_example. Qed.
+Print Assumptions C03_repeated_terms_example.
